@@ -140,6 +140,9 @@ class ExcelInPython:
 
     def _compare(self, operator: str, left_operand: str | int | float | datetime.date | datetime.datetime,
                           right_operand: str | int | float | datetime.date | datetime.datetime) -> bool:
+        if isinstance(left_operand, list) or isinstance(right_operand, list):
+            # an area compared with a value is an array formula, which is not supported; the text of the list must not stand in for it
+            raise TypeError('an area cannot be compared with a single value')
         # the difference of two dates is a number of days
         if isinstance(left_operand, datetime.timedelta):
             left_operand = left_operand / datetime.timedelta(days=1)
